@@ -781,9 +781,8 @@ fn parse_enum(d: &Decl, eid: &str, name: &str, tokens: &[String]) -> Expect {
                 }
             }
             RArg::DoubleDash => {
-                if expect.is_some() {
-                    return Expect::Unspec("an option is still waiting for its value at `--`");
-                }
+                // `--` only ends option parsing: an option that is waiting for its value still gets
+                // the next (now plain) value - the only way to hand it a value starting with a dash
                 if v.sub.is_some() {
                     return Expect::Unspec("`--` before a sub-command name");
                 }
